@@ -311,3 +311,16 @@ Example c06_late_cast_example :
   /\ map fst (ss_entails (den_specs [([x41], doc)] cmds x61)) = [[x41]]
   /\ map fst (ss_entails (den_specs [([x41], doc)] cmds x62)) = [[x41]; [x42]; [x43]].
 Proof. vm_compute. repeat split. Qed.
+
+(** A clause written over several lines (backslash continuation: the newline
+    and the indentation stay in the clause) or with tabs next to blanks reads
+    like the same clause on one line. *)
+Example c06_multi_line_clause_example :
+  let dfn := defined ex_sp in
+  let multi := [x61; x2e; x62; x20; x0a; x20; x20; x20; x62; x5f; x61; x20; x09; x0a; x20; x2e; x63] in
+  ws_ok multi = true
+  /\ validate_storyline dfn multi = Ok [[x61; x2e; x62]; [x62; x61]; [x2e; x63]]
+  /\ acts_of (blank_ws multi) = [[x61; x2e; x62]; [x62; x61]; [x2e; x63]]
+  /\ validate_storyline dfn (blank_ws multi) = validate_storyline dfn multi
+  /\ ws_ok [x61; x0a; x62] = false.
+Proof. vm_compute. repeat split. Qed.
